@@ -67,10 +67,13 @@ def run(ctx):
                 ev = asyncio.run(D.run_schedule(sc))
                 T.append(dict(scenario=dict(sc, solo=solo), events=ev))
             if clients == 2:
-                # second client used for the first time only after the first client's discovery was answered
-                order = [k for k in ex if k.endswith("@0")] * 12 + [k for k in ex if k.endswith("@1")] * 12
-                sc = dict(proto=proto, ops=ops, order=order, clients=clients)
-                T.append(dict(scenario=dict(sc, solo=solo), events=asyncio.run(D.run_schedule(sc))))
+                # the second client is used for the first time only after the first client's discovery (or more) was answered
+                first = [k for k in ex if k.endswith("@0")]
+                second = [k for k in ex if k.endswith("@1")]
+                for after in (1, 2, 3):
+                    order = (first * 12)[:after] + [k for k in word if True]
+                    sc = dict(proto=proto, ops=ops, order=order, clients=clients, late={k: after for k in second})
+                    T.append(dict(scenario=dict(sc, solo=solo), events=asyncio.run(D.run_schedule(sc))))
     ctx.evaluations += len(T)
     verdicts = ctx.validate("Trace_Concurrent", T, chunk=3000)
     ctx.judge(T, verdicts, signature=sig, nontrivial=lambda tr, v: json.dumps([tr["scenario"]["proto"], tr["scenario"]["ops"], tr["scenario"]["order"]]))
